@@ -79,7 +79,7 @@ PROPS = {
     "C06": {
         "module": "FBV.Props.C06",
         "theorems": ["FBV.pollLoop_outcome", "FBV.C06.reader_error_loses_nothing", "FBV.C06.error_erasure", "FBV.C06.own_errors_stable"],
-        "jobs": sync_jobs("rfe"),
+        "jobs": (lambda tier: sync_jobs("rfe")(tier) + sync_jobs("big")(tier)),
         "tie": "T2 as C02 with a reader error (5 kinds) or panic injected before every reader call",
         "rule": RF_RULE,
         "level_text": ("Kernel-checked for ARBITRARY scripts mixing chunks with reader errors of any kind at any position: an error return carries a kind "
@@ -138,7 +138,7 @@ PROPS = {
                      "FBV.C13.chain_read_no_write", "FBV.C13.take_read_no_write",
                      "FBV.C13.achain_write", "FBV.C13.achain_flush", "FBV.C13.atake_write", "FBV.C13.atake_flush", "FBV.C13.asrw_pollRead_no_write"],
         "jobs": (lambda tier: [{"which": w, "profile": p, "args": [m], "oc": p == "dev"}
-                               for (w, m) in (("sync", "chain"), ("sync", "take"), ("tokio", "achain"), ("tokio", "atake")) for p in ("dev", "release")]),
+                               for (w, m) in (("sync", "chain"), ("sync", "take"), ("tokio", "achain"), ("tokio", "atake"), ("sync", "big")) for p in ("dev", "release")]),
         "tie": "T2 all four adapters over a logging inner read-writer (results full/partial/zero/error/Pending)",
         "rule": AD_RULE + "; the tokio adapters with ReadBufs of every pre-fill 0..2 x capacity {0,1,4}, Pending at any poll, flush and shutdown",
         "level_text": ("Definitional theorems, said plainly: in the model every adapter write/flush/shutdown is one call on the wrapped read-writer with the "
@@ -245,7 +245,7 @@ PROPS = {
         "module": "FBV.Props.C01b",
         "theorems": ["FBV.C01.stepWV_sat", "FBV.C01.stepRV_sat", "FBV.C01.stepWF_sat", "FBV.C01.stepRE_sat", "FBV.C01.stepRTE_sat", 'FBV.C01.step_sat', 'FBV.C01.sat_conserves', 'FBV.C01.fifo_history', 'FBV.C01.only_clear_discards', 'FBV.step_WInv', 'FBV.reachable_WInv'],
         "level_text": "Kernel-checked: for EVERY state with ri<=wi<=SIZE, EVERY public call (all write paths, all read paths incl. deframe/io::Read/try_parse scripts, shift, clear) with EVERY argument and both overflow-check settings, the unread bytes change exactly by what the call hands out / accepts and len()/is_empty() describe them (step_sat); lifted by induction to every finite history from any constructor (fifo_history: taken ++ readable = initial ++ accepted). The model's step function is tied to the real FixedBuf transition by transition from the implementation's own observed state (exhaustive for small SIZE, random walks up to SIZE 4096), and the same executable predicate Sat_C01 is evaluated on the implementation's transitions.",
-        "jobs": t1_jobs(["dev", "release"]),
+        "jobs": (lambda tier: t1_jobs(["dev", "release"])(tier) + sync_jobs("big")(tier)),
         "tie": "T1 (transition-level, from the implementation's observed state)",
         "rule": T1_RULE,
     },
@@ -253,7 +253,7 @@ PROPS = {
         "module": "FBV.Props.C01b",
         "theorems": ["FBV.C01.stepWV_sat", "FBV.C01.stepRV_sat", "FBV.C01.stepWF_sat", "FBV.C01.stepRE_sat", "FBV.C01.stepRTE_sat", 'FBV.C03.step_sat', 'FBV.C03.history_capacity', 'FBV.step_WInv', 'FBV.reachable_WInv'],
         "level_text": 'Kernel-checked for every weakly well-formed state, every call, every argument, both profiles: a write of n bytes succeeds iff n<=free and shrinks the free space by exactly n; a refused write changes nothing; shift/clear/draining reads reclaim all capacity; reads, queries and failed calls never shrink the free space; len+free<=SIZE over every history. Tied to the code by the T1 transition correspondence with boundary lengths free-1, free, free+1 generated by construction.',
-        "jobs": t1_jobs(["dev", "release"]),
+        "jobs": (lambda tier: t1_jobs(["dev", "release"])(tier) + sync_jobs("big")(tier)),
         "tie": "T1",
         "rule": T1_RULE,
     },
